@@ -135,4 +135,65 @@ def AuthPre.tag : AuthPre → Nat
   | .mapErr _ => 3
   | .normErr _ => 4
 
+/-! ### sessions of several transactions (round 10)
+
+`Session.Mail` / `Session.Rcpt` / `Session.Reset` behind go-smtp (`Conn.fromReceived`: RCPT without an
+accepted MAIL is answered 502 by go-smtp itself; MAIL is NOT refused inside a transaction by go-smtp,
+`Session.Mail` answers 503 when a delivery is open).  With `defer_sender_reject` the delivery is
+started by the first RCPT; its failure is kept in `Session.deliveryErr` — already converted for the
+SMTPUTF8 flag of the MAIL it belongs to — and repeated for further RCPTs.  Mirrors the code after
+`fix: failure of a deferred MAIL was answered to RCPT of later transactions of the session`: the kept
+failure is dropped by RSET and by the next MAIL. -/
+
+inductive SessCmd
+  | mail (utf8 : Bool) (out : Option Err)   -- `out`: what `startDelivery` for this sender ends with
+  | rcpt
+  | rset
+deriving Repr, Inhabited
+
+structure Sess where
+  fromReceived : Bool          -- go-smtp `Conn.fromReceived`
+  utf8 : Bool                  -- `s.opts.UTF8`
+  plan : Option Err            -- the outcome `startDelivery(s.mailFrom)` will have
+  isOpen : Bool                -- `s.delivery != nil`
+  deliveryErr : Option Reply   -- `s.deliveryErr`
+deriving Repr, Inhabited
+
+def Sess.init : Sess := ⟨false, false, none, false, none⟩
+
+inductive SessReply
+  | ok
+  | noMail            -- go-smtp: 502 5.5.1 Missing MAIL FROM command.
+  | nested            -- Session.Mail: 503 5.5.1 Nested MAIL command
+  | err (r : Reply)
+deriving Repr, Inhabited
+
+def sessStep (deferred : Bool) (s : Sess) : SessCmd → Sess × SessReply
+  | .mail u o =>
+    if s.isOpen then (s, .nested)
+    else if deferred then
+      ({ s with fromReceived := true, utf8 := u, plan := o, deliveryErr := none }, .ok)
+    else match o with
+      | some e => (s, .err (wrapErr (!u) e))
+      | none => ({ s with fromReceived := true, utf8 := u, plan := none, isOpen := true }, .ok)
+  | .rcpt =>
+    if !s.fromReceived then (s, .noMail)
+    else if s.isOpen then (s, .ok)
+    else match s.deliveryErr with
+      | some r => (s, .err r)
+      | none =>
+        match s.plan with
+        | some e => ({ s with deliveryErr := some (wrapErr (!s.utf8) e) }, .err (wrapErr (!s.utf8) e))
+        | none => ({ s with isOpen := true }, .ok)
+  | .rset => (⟨false, false, none, false, none⟩, .ok)
+
+def sessRun (deferred : Bool) : Sess → List SessCmd → List SessReply
+  | _, [] => []
+  | s, c :: r => (sessStep deferred s c).2 :: sessRun deferred (sessStep deferred s c).1 r
+
+/-- the state after a list of commands -/
+def sessAfter (deferred : Bool) : Sess → List SessCmd → Sess
+  | s, [] => s
+  | s, c :: r => sessAfter deferred (sessStep deferred s c).1 r
+
 end MaddyVerif.Errors
